@@ -19,7 +19,7 @@ import time
 VERIF = os.path.dirname(os.path.dirname(os.path.abspath(__file__)))
 REPO = os.environ.get('VERIF_REPO', '/repo')
 MEM_KB = int(os.environ.get('VERIF_KANI_MEM_KB', '16000000'))
-TIMEOUT = int(os.environ.get('VERIF_KANI_TIMEOUT', '900'))
+TIMEOUT = int(os.environ.get('VERIF_KANI_TIMEOUT', '1800'))
 
 
 def parse_meta(path):
